@@ -3,7 +3,7 @@
 set -e
 rm -rf /tmp/vthor /tmp/vthor_repo
 mkdir -p /tmp/vthor_repo
-rsync -a --exclude .git /repo/ /tmp/vthor_repo/
+git -C /repo archive HEAD | tar -x -C /tmp/vthor_repo; cp /repo/go.sum /tmp/vthor_repo/go.sum
 rsync -a --exclude build --exclude replays /verif/ /tmp/vthor/
 sed -i 's#=> /repo#=> /tmp/vthor_repo#' /tmp/vthor/harness/go.mod
 cd /tmp/vthor
